@@ -1153,6 +1153,27 @@ def lines_e2e_cde(cases, workdir, stream, binary):
                 # asked for without a room list: there are no possible rooms to name, the field is not written
                 has = [k for k, v in imp.get("courses", {}).items() if "possible_rooms" in (v.get("fields") or {})]
                 out.append(line("direct", ["C18"], ok=not has, what=f"no room list given, but courses {has[:5]} carry a possible-rooms field", case=i, stream=stream, nontrivial=False))
+            if c.get("print") and c["rooms"] is not None:
+                # C18 on the CdE path: the rooms line of the listing is the list written into the possible-rooms
+                # field of the same run, and a course that holds people is offered at least one room
+                rprobs = []
+                try:
+                    lst = parse_listing(so)
+                    exp = problem_of(c["doc"], c["opts"])
+                    if lst is None or exp is None or len(lst) != len(exp[0]):
+                        rprobs.append(f"listing not understood ({None if lst is None else len(lst)} blocks)")
+                    else:
+                        for (hdr, cnt, rooms_line, entries, hidden), cid in zip(lst, exp[0]):
+                            if rooms_line is None:
+                                rprobs.append(f"course {cid}: no rooms line although rooms were given"); continue
+                            if cnt and rooms_line.strip() == "":
+                                rprobs.append(f"course {cid} holds {cnt} people and is offered no room")
+                            fld_ = (imp.get("courses", {}).get(str(cid), {}).get("fields") or {}).get("possible_rooms")
+                            if c.get("prf") and fld_ is not None and fld_ != rooms_line:
+                                rprobs.append(f"course {cid}: listing says {rooms_line!r}, the field written in the same run {fld_!r}")
+                except Exception as e:
+                    rprobs.append(f"listing could not be compared ({type(e).__name__}: {e})")
+                out.append(line("direct", ["C18"], ok=not rprobs, what="; ".join(rprobs[:3]) or "rooms lines of the listing agree with the field and offer a room to every course with people", case=i, stream=stream, feat=["cde-print-rooms"]))
             # (--print on the CdE path: the listing itself belongs to no property here — C14 speaks of the simple
             # format — so it is only run, not judged; a crash while printing shows in the first line above)
             if c.get("prf") and c["rooms"] is not None and not c.get("rooms_file"):
@@ -1770,7 +1791,7 @@ def stream_cli_fault(seed, tier, workdir, stream):
     # a simple instance (FAULT_SIMPLE) and an export (TestAka) that certainly have a solution
     for fmt in ["simple", "cde"]:
         for fault in ["ok", "missing-dir", "is-dir", "name-too-long", "notdir-component", "dev-full", "readonly-dir", "fsize-limit", "stale-longer",
-                      "bad-option-before-output", "empty-output-path"]:
+                      "bad-option-before-output", "empty-output-path", "output-is-input", "output-is-input-other-spelling"]:
             for pr in [False, True]:
                 cases.append({"fmt": fmt, "fault": fault, "print": pr, "limit": r.choice([1, 50, 200])})
             # the listing's consumer has gone away (--print into a pipe whose read end is closed): the program
@@ -1820,6 +1841,10 @@ def lines_cli_fault(cases, workdir, stream, binary):
                     fault = "readonly-dir-as-root"
             elif fault == "stale-longer":
                 open(outp, "w").write("{" + " " * 5000 + "\"old\": true}" + "\n" * 100)
+            elif fault in ("output-is-input", "output-is-input-other-spelling"):
+                # the result is to replace the input file (same path, or the same file under another spelling)
+                inp2 = os.path.join(sub, "data.json"); shutil.copy(inp, inp2); inp = inp2
+                outp = inp2 if fault == "output-is-input" else os.path.join(sub, ".", "data.json")
             elif fault == "empty-output-path":
                 outp = ""          # e.g. `cdecao "$IN" "$OUT"` with OUT unset: an output WAS requested and cannot be created
             elif fault == "bad-option-before-output":
@@ -1856,7 +1881,9 @@ def lines_cli_fault(cases, workdir, stream, binary):
             if os.path.isfile(outp) and outp != "/dev/full":
                 try:
                     j = json.load(open(outp, encoding="utf-8"))
-                    complete = ("assignment" in j) if c["fmt"] == "simple" else ("registrations" in j and "courses" in j)
+                    # a complete document OF THE SELECTED OUTPUT FORMAT (an export left in place is not a result)
+                    complete = (("assignment" in j and j.get("format") == "X-courseassignment-simple") if c["fmt"] == "simple"
+                                else ("registrations" in j and "courses" in j and j.get("kind") == "partial" and "summary" in j and "event" not in j))
                 except Exception:
                     complete = False
             if rc == 0:
@@ -1867,7 +1894,7 @@ def lines_cli_fault(cases, workdir, stream, binary):
                 ok = rc == 101 and "failed printing to stdout" in se
                 what = f"{c['fmt']}/{fault}/print into a closed pipe: exit {rc}; stderr tail {se[-200:]}"
             else:
-                expect_fail = fault not in ("ok", "stale-longer", "readonly-dir-as-root")
+                expect_fail = fault not in ("ok", "stale-longer", "readonly-dir-as-root", "output-is-input", "output-is-input-other-spelling")
                 ok = expect_fail and rc is not None and rc != 0 and "panicked" not in se
                 what = f"{c['fmt']}/{fault}/print={c['print']}: exit {rc}; stderr tail {se[-200:]}"
             if fault == "bad-option-before-output":
@@ -1879,8 +1906,8 @@ def lines_cli_fault(cases, workdir, stream, binary):
                 continue      # refused by clap (not modelled): the oracle above is all there is to say
             # decision logic of the output stage as modelled in Lean
             created = os.path.isfile(outp) or outp == "/dev/full"
-            out.append(line("corr", ["C16"], "OS", json.dumps({"created": fault in ("ok", "dev-full", "fsize-limit", "stale-longer", "readonly-dir-as-root"),
-                                                                "written": fault in ("ok", "stale-longer", "readonly-dir-as-root"), "print": c["print"], "closed": closed}),
+            out.append(line("corr", ["C16"], "OS", json.dumps({"created": fault in ("ok", "dev-full", "fsize-limit", "stale-longer", "readonly-dir-as-root", "output-is-input", "output-is-input-other-spelling"),
+                                                                "written": fault in ("ok", "stale-longer", "readonly-dir-as-root", "output-is-input", "output-is-input-other-spelling"), "print": c["print"], "closed": closed}),
                             f"exit={rc} listing={'true' if (c['print'] and so.startswith('The assignment is:')) else 'false'}", case=i, stream=stream))
     finally:
         shutil.rmtree(d, ignore_errors=True)
